@@ -54,8 +54,10 @@ VARIANTS = {
           (OP, 'positions -= positions[1]  # force surface 1 to be at zero',
            'pass')),
         M('set-index-same-surface',
-          (OP, 'surface_post = self.surface_group.surfaces[surface_number+1]',
-           'surface_post = self.surface_group.surfaces[surface_number]')),
+          (OP, '        idx = surface_number + 1\n        surfaces[idx].'
+               'material_pre = new_material',
+           '        idx = surface_number\n        surfaces[idx].'
+           'material_pre = new_material')),
         M('stop-not-cleared',
           (SG, '        if new_surface.is_stop:\n            for surface in '
                'self.surfaces:\n                surface.is_stop = False\n',
@@ -1582,4 +1584,50 @@ _RT17 = {
     ],
 }
 for _p, _l in _RT17.items():
+    VARIANTS.setdefault(_p, []).extend(_l)
+
+
+_RT18 = {
+    'C19': [
+        M('rt18-coating-media-raw',
+          (CT, "            'material_pre': self.material_pre.to_dict(),\n"
+               "            'material_post': self.material_post.to_dict()\n"
+               "        }\n\n    @classmethod\n    def from_dict(cls, data):\n"
+               "        \"\"\"\n        Creates a coating from a dictionary.\n\n"
+               "        Args:\n            data (dict): The dictionary "
+               "representation of the coating.\n\n        Returns:\n"
+               "            BaseCoating: The coating created from the "
+               "dictionary.\n        \"\"\"\n        return cls(BaseMaterial."
+               "from_dict(data['material_pre']),\n                   "
+               "BaseMaterial.from_dict(data['material_post']))\n\n\nclass "
+               "FresnelCoating",
+           "            'material_pre': self.material_pre,\n"
+           "            'material_post': self.material_post\n"
+           "        }\n\n    @classmethod\n    def from_dict(cls, data):\n"
+           "        return cls(data['material_pre'], data['material_post'])"
+           "\n\n\nclass FresnelCoating")),
+        M('rt18-polarization-raw',
+          (OP, "        data['wavelengths']['polarization'] = "
+               "self.polarization.to_dict() \\\n            if isinstance("
+               "self.polarization, PolarizationState) \\\n            else "
+               "self.polarization\n",
+           "        data['wavelengths']['polarization'] = "
+           "self.polarization\n")),
+        M('rt18-save-inside-open',
+          (O + 'fileio/optiland_handler.py',
+           "    text = json.dumps(obj.to_dict(), indent=4, default=plain)\n"
+           "    with open(filepath, 'w') as f:\n        f.write(text)\n",
+           "    with open(filepath, 'w') as f:\n"
+           "        json.dump(obj.to_dict(), f, indent=4, default=plain)\n")),
+        M('rt18-media-not-relinked',
+          (SG, "            if pre == prev.material_post.to_dict():\n"
+               "                surf.material_pre = prev.material_post\n",
+           '')),
+        M('rt18-plane-conic-not-written',
+          (O + 'geometries/plane.py',
+           "        if hasattr(self, 'k'):\n"
+           "            geometry_dict['conic'] = self.k\n", '')),
+    ],
+}
+for _p, _l in _RT18.items():
     VARIANTS.setdefault(_p, []).extend(_l)
